@@ -10,16 +10,60 @@ from rtc import common
 from rtc.report import Report
 
 
-def connected(d, i):
-    """boxes i and i+1 share a wire (independent oracle, from the scan)"""
+def spans(d, i):
     off0, off1 = d.offsets[i], d.offsets[i + 1]
     b0, b1 = d.boxes[i], d.boxes[i + 1]
-    out0 = set(range(off0, off0 + len(b0.cod)))
-    in1 = set(range(off1, off1 + len(b1.dom)))
+    return set(range(off0, off0 + len(b0.cod))), set(range(off1, off1 + len(b1.dom))), off0, off1, b0, b1
+
+
+def wired_adjacent(d, i):
+    """boxes i and i+1 share a wire (independent oracle, from the scan)"""
+    out0, in1, *_ = spans(d, i)
+    return bool(out0 & in1)
+
+
+def enclosed_adjacent(d, i):
+    """no shared wire, yet the boxes cannot pass each other in the plane: a box without outputs strictly between the
+    inputs of the next one, or a box without inputs strictly between the outputs of the previous one"""
+    out0, in1, off0, off1, b0, b1 = spans(d, i)
     if out0 & in1:
-        return True
-    # not sharing a wire: b1 lies wholly left or wholly right of b0's outputs
-    return not (off1 + len(b1.dom) <= off0 or off1 >= off0 + len(b0.cod))
+        return False
+    return (not out0 and off1 < off0 < off1 + len(b1.dom)) or (not in1 and off0 < off1 < off0 + len(b0.cod))
+
+
+def wire_sets(d):
+    """global wire identities: for every box the sets of wires it consumes and produces"""
+    scan = list(range(len(d.dom)))
+    fresh = len(scan)
+    ins, outs = [], []
+    for box, off in zip(d.boxes, d.offsets):
+        ins.append(set(scan[off:off + len(box.dom)]))
+        new = list(range(fresh, fresh + len(box.cod)))
+        fresh += len(box.cod)
+        outs.append(set(new))
+        scan = scan[:off] + new + scan[off + len(box.dom):]
+    return ins, outs
+
+
+def wired_on_the_way(d, i, j):
+    """some box strictly on the way from position i to position j (j included) shares a wire with box i"""
+    ins, outs = wire_sets(d)
+    way = range(i + 1, j + 1) if j > i else range(j, i)
+    return any((outs[i] & ins[k]) or (ins[i] & outs[k]) for k in way)
+
+
+def trapped_step(d, i, j, left):
+    """replay a refused distant move one adjacent step at a time: True iff the step that is refused is a pair of boxes that
+    share no wire but enclose one another (the planar obstruction of known finding F24)"""
+    cur, pos = d, i
+    step = 1 if j > i else -1
+    while pos != j:
+        lo = min(pos, pos + step)
+        got = common.outcome(cur.interchange, pos, pos + step, left=left)
+        if got[0] != 'ok':
+            return got == ('exc', InterchangerError) and enclosed_adjacent(cur, lo)
+        cur, pos = got[1], pos + step
+    return False
 
 
 def make_functor(boxes, seed):
@@ -56,11 +100,18 @@ def check_one(rep, d, i, j, left, spec, F):
     if real[0] != want[0] or (real[0] == 'exc' and real[1] is not want[1]):
         rep.fail('C05:contract.outcome', 'real %r vs contract %r' % (real, want), inp)
         return
-    if abs(i - j) == 1:
-        lo = min(i, j)
+    # from the property statement: refused with an interchanger error exactly when some box on the way is wired to the
+    # moving box (independent wire-tracking oracle)
+    if i != j:
         refused = real == ('exc', InterchangerError)
-        if refused != connected(d, lo):
-            rep.fail('C05:refuses_iff_connected', 'refused=%r connected=%r' % (refused, connected(d, lo)), inp)
+        wired = wired_on_the_way(d, i, j)
+        if wired and not refused:
+            rep.fail('C05:accepted.wired', 'the move was performed although a box on the way is wired to the moving box', inp)
+        if refused and not wired:
+            planar = enclosed_adjacent(d, min(i, j)) if abs(i - j) == 1 else trapped_step(d, i, j, left)
+            # known finding F24 when the refusal is the planar obstruction and nothing else
+            rep.fail('C05:refused.unwired.enclosed' if planar else 'C05:refused.unwired',
+                     'refused although no box on the way shares a wire with the moving box', inp)
     if real[0] == 'exc':
         rep.count('refused')
         return
